@@ -65,7 +65,14 @@ def handle (j : Json) : Except String Json := do
     let m ← mapOf (← jobj j "map")
     let g ← jbool j "guard"
     let bs ← (← jarr j "blocks").toList.mapM blockOf
-    pure (Json.mkObj [("ok", Json.arr ((transformBlocks g m bs).map blockJ).toArray),
+    let single := (jbool j "single").toOption.getD false
+    let licensed := (jbool j "licensed").toOption.getD false
+    let nested ← match jopt j "nested" with
+      | some a => (← a.getArr?).toList.mapM impOf
+      | none => pure []
+    let v : Variant := ⟨g, single, licensed⟩
+    let out := if single || licensed then transformBlocksV v m nested bs bs else transformBlocks g m bs
+    pure (Json.mkObj [("ok", Json.arr (out.map blockJ).toArray),
                       ("nonint", Json.bool (nonInterferingB m))])
   | _ => throw s!"unknown op {op}"
 
